@@ -54,6 +54,37 @@ func c13HostileSDP(r *vlib.Rand, i int) (string, string) {
 	}
 }
 
+// c13StructuralOffers: offers whose SHAPE is unusual rather than one of their
+// lines: media lines with an empty format list (pion accepts them), with a
+// foreign or missing format, rejected (port 0) sections, several sections,
+// credentials only at session level, no media section at all.
+func c13StructuralOffers() []string {
+	const sess = "v=0\r\no=- 4358805017720277108 2 IN IP4 8.8.8.8\r\ns=-\r\nt=0 0\r\n"
+	const cred = "a=ice-ufrag:aMAZ\r\na=ice-pwd:jcHb08Jjgrazp2dzjdrvPPvV\r\na=fingerprint:sha-256 C8:88:EE:B9:E7:02:2E:21:37:ED:7A:D1:EB:2B:A3:15:A2:3B:5B:1C:3D:D4:D5:1F:06:CF:52:40:03:F8:DD:66\r\na=setup:actpass\r\n"
+	const cand = "a=candidate:3769337065 1 udp 2122260223 203.0.113.7 56688 typ host\r\n"
+	tail := "c=IN IP4 8.8.8.8\r\n" + cand + cred + "a=mid:0\r\na=sctp-port:5000\r\n"
+	var out []string
+	for _, m := range []string{
+		"m=application 9 UDP/DTLS/SCTP",                      // empty format list
+		"m=application 9 UDP/DTLS/SCTP ",                     // trailing space, empty format
+		"m=application 9 UDP/DTLS/SCTP 5000",                 // old-style numeric format
+		"m=application 9 DTLS/SCTP 5000",                     // the pre-RFC 8841 proto
+		"m=application 0 UDP/DTLS/SCTP webrtc-datachannel",   // rejected section
+		"m=application 9 UDP/DTLS/SCTP webrtc-datachannel x", // two formats
+		"m=audio 9 UDP/TLS/RTP/SAVPF",                        // audio without formats
+		"m=video 9 UDP/TLS/RTP/SAVPF 96",
+		"m=application 9/2 UDP/DTLS/SCTP webrtc-datachannel", // port range
+	} {
+		out = append(out, sess+"a=group:BUNDLE 0\r\n"+m+"\r\n"+tail)
+	}
+	out = append(out,
+		sess+cred, // no media section, credentials at session level
+		sess+"a=group:BUNDLE 0 1\r\nm=application 9 UDP/DTLS/SCTP webrtc-datachannel\r\n"+tail+"m=application 9 UDP/DTLS/SCTP\r\n"+"c=IN IP4 8.8.8.8\r\n"+cred+"a=mid:1\r\n",
+		sess+cred+"m=application 9 UDP/DTLS/SCTP webrtc-datachannel\r\nc=IN IP4 8.8.8.8\r\na=mid:0\r\n",
+	)
+	return out
+}
+
 func TestVerifC13PeerConnection(t *testing.T) {
 	res := vlib.NewResult("C13", "inpkg-proxylib-c13-peerconn", "hostile offers (the base offer with one line of any SDP line type inserted or replaced with 0-3 odd fields, truncations, arbitrary bytes, plus fixed witnesses) handed to the proxy's makePeerConnectionFromOffer exactly as runSession does after deserialising; the call must return a peer connection or an error, never panic; non-trivial = offer the SDP parser rejects or panics on, distinct by text")
 	defer res.Finish()
@@ -66,6 +97,7 @@ func TestVerifC13PeerConnection(t *testing.T) {
 		"v=0\r\no=- 0 0 IN IP4 0\r\ns=-\r\nt=0 0\r\nr=1\r\n",
 		"", "v=0\r\n", c13BaseOffer,
 	}
+	witnesses = append(witnesses, c13StructuralOffers()...)
 	for i := 0; i < n+len(witnesses); i++ {
 		var sdp, desc string
 		if i < len(witnesses) {
